@@ -1052,6 +1052,17 @@ func (fv *FuncVC) evalCall(env *SpecEnv, x *SCall) Val {
 		case "isnil":
 			v := fv.evalSpec(env, x.Args[0])
 			return boolVal(Eq(v.C[0], "0"))
+		case "local":
+			// local(x): the current value of the variable x at the program point of a `checks` clause or invariant, also when x
+			// is a parameter (a bare parameter name in a post-condition denotes its entry value)
+			id, ok := x.Args[0].(*SIdent)
+			if !ok {
+				engineErr("local(..) takes a variable name")
+			}
+			if v, ok := fv.resolveSourceName(env, id.Name); ok {
+				return v
+			}
+			engineErr("unresolved name %q", id.Name)
 		case "allocated":
 			v := fv.evalSpec(env, x.Args[0])
 			return boolVal(fmt.Sprintf("(and (> %s 0) (< %s %s))", v.C[0], v.C[0], env.cur.cnt))
